@@ -15,6 +15,50 @@ use registry::*;
 use std::fmt::Write as _;
 use std::panic::{catch_unwind, AssertUnwindSafe};
 
+/// The std-only paths of the crate (`impl Output for W: io::Write`, `IoReader`) over a writer and a
+/// reader that behave as the io traits allow: short writes / short reads and spurious
+/// `Interrupted` errors.  Without `std` the same lines are produced from the core paths, so a
+/// std-only path that loses or rejects bytes shows up as a configuration-dependent result.
+#[cfg(feature = "cfg-std")]
+mod stdio {
+	use std::io;
+	pub struct ShortWriter {
+		pub out: Vec<u8>,
+		pub tick: u32,
+	}
+	impl io::Write for ShortWriter {
+		fn write(&mut self, b: &[u8]) -> io::Result<usize> {
+			self.tick += 1;
+			if self.tick % 3 == 0 {
+				return Err(io::Error::from(io::ErrorKind::Interrupted));
+			}
+			let n = b.len().min(1 + (self.tick as usize % 3));
+			self.out.extend_from_slice(&b[..n]);
+			Ok(n)
+		}
+		fn flush(&mut self) -> io::Result<()> {
+			Ok(())
+		}
+	}
+	pub struct ChoppyReader<'a> {
+		pub data: &'a [u8],
+		pub pos: usize,
+		pub tick: u32,
+	}
+	impl<'a> io::Read for ChoppyReader<'a> {
+		fn read(&mut self, b: &mut [u8]) -> io::Result<usize> {
+			self.tick += 1;
+			if self.tick % 2 == 0 {
+				return Err(io::Error::from(io::ErrorKind::Interrupted));
+			}
+			let n = b.len().min(self.data.len() - self.pos).min(1 + (self.tick as usize % 5));
+			b[..n].copy_from_slice(&self.data[self.pos..self.pos + n]);
+			self.pos += n;
+			Ok(n)
+		}
+	}
+}
+
 struct Cx {
 	rng: Rng,
 	out: String,
@@ -46,6 +90,21 @@ fn one<T: Uni + Encode + Decode + DecodeWithMemTracking>(cx: &mut Cx, name: &str
 		}
 		writeln!(cx.out, "{name}\tenc\t{}\t{}", v.val_enc().len(), hex(&enc)).unwrap();
 		cx.n += 1;
+		{
+			#[cfg(feature = "cfg-std")]
+			let io_bytes = catch_unwind(AssertUnwindSafe(|| {
+				let mut w = stdio::ShortWriter { out: vec![], tick: 0 };
+				v.encode_to(&mut w);
+				w.out
+			}));
+			#[cfg(not(feature = "cfg-std"))]
+			let io_bytes: Result<Vec<u8>, ()> = Ok(enc.clone());
+			match io_bytes {
+				Ok(b) => writeln!(cx.out, "{name}\tencio\t{}\t{}", v.val_enc().len(), hex(&b)).unwrap(),
+				Err(_) => writeln!(cx.out, "{name}\tencio\tPANIC").unwrap(),
+			}
+			cx.n += 1;
+		}
 		cx.cases.push(format!("(GEnc {} {} {})", desc, v.val_enc(), blist(&enc)), format!("{name}\tenc"), !enc.is_empty());
 		let mut inputs = vec![enc.clone()];
 		for _ in 0..3 {
@@ -77,6 +136,26 @@ fn one<T: Uni + Encode + Decode + DecodeWithMemTracking>(cx: &mut Cx, name: &str
 			};
 			writeln!(cx.out, "{name}\tdec\t{}\t{}\tall={:?}", hex(&inp), tag, all.ok()).unwrap();
 			cx.n += 1;
+			{
+				#[cfg(feature = "cfg-std")]
+				let rio = catch_unwind(AssertUnwindSafe(|| {
+					let mut rd = stdio::ChoppyReader { data: &inp, pos: 0, tick: 0 };
+					let r = T::decode(&mut parity_scale_codec::IoReader(&mut rd)).ok();
+					r.map(|v| (v, rd.pos))
+				}));
+				#[cfg(not(feature = "cfg-std"))]
+				let rio = catch_unwind(AssertUnwindSafe(|| {
+					let mut s = &inp[..];
+					T::decode(&mut s).ok().map(|v| (v, inp.len() - s.len()))
+				}));
+				let tag = match &rio {
+					Ok(Some((v, c))) => format!("ok\t{}\t{}", c, hex(&v.encode())),
+					Ok(None) => "err".to_string(),
+					Err(_) => "PANIC".to_string(),
+				};
+				writeln!(cx.out, "{name}\tdecio\t{}\t{}", hex(&inp), tag).unwrap();
+				cx.n += 1;
+			}
 			cx.cases.push(format!("(GDec {} true {} {})", desc, blist(&inp), coq), format!("{name}\tdec\t1\t{}", hex(&inp)), !inp.is_empty());
 		}
 	}
